@@ -22,7 +22,7 @@ structure St where
 deriving Repr
 
 def isAsym (kt : String) : Bool :=
-  ["ed25519", "p256der", "p256", "p384", "p521", "x25519kw", "p256kw", "p384kw", "p521kw", "bbs", "secp256k1"].contains kt
+  ["ed25519", "ed25519seed", "p256der", "p256", "p384", "p521", "x25519kw", "p256kw", "p384kw", "p521kw", "bbs", "secp256k1"].contains kt
 
 /-- key types for which `kmsdidkey` derives a key id from the did:key form (key agreement keys and Ed25519) -/
 def didKeyDerivable (kt : String) : Bool := ["ed25519", "x25519kw", "p256kw", "p384kw", "p521kw"].contains kt
@@ -30,7 +30,7 @@ def didKeyDerivable (kt : String) : Bool := ["ed25519", "x25519kw", "p256kw", "p
 /-- NIST key agreement keys: the did:key built from the public JWK equals the did:key built from the key (flag `j1`) -/
 def jwkDidKey (kt : String) : Bool := ["p256kw", "p384kw", "p521kw"].contains kt
 
-def importable (kt : String) : Bool := ["ed25519", "p256", "p256der", "p384", "secp256k1"].contains kt
+def importable (kt : String) : Bool := ["ed25519", "ed25519seed", "p256", "p256der", "p384", "secp256k1"].contains kt
 
 /-- one call; `failAt` = index of the mutating storage call that fails (crash), if any. Returns (state, outcome) -/
 def step (s : St) (op : String) (failAt : Option Nat) : St × String :=
